@@ -22,6 +22,10 @@ CHECKS = {
  "C13": dict(engine="race", level="exploration", technique="Go race detector on free-running seeded client programs (the operation alphabets of the X specs' environment actions) with perturbing verifhook handlers; the TLA+ specs contribute the atomicity assumption being validated, not the verdict",
              text="Dynamic exploration: 16 program families (one per concurrency-safe type named in the statement), each 3-4 goroutines issuing random documented API calls on a shared object under -race; a report counts iff one of its two access sites lies in a non-test library file. This is the modelling assumption (critical sections are atomic) of every X spec, validated on the real code; it is not decided by TLC.", ref="§3 C13",
              note="Trusted: the Go race detector (go1.26.8 -race), which only reports races that occur in executed schedules; report classification by first frame outside GOROOT; harness callbacks keep their own state goroutine-local."),
+ "C17": dict(engine="ccall", technique="TLA+ monitor CCallP checked by TLC on the X spec CCall.tla (start section, caller's unlocked read as its own step, worker sections) and on traces of the real CallConcurrently driven by TLC edge-cover schedules (caller parked at the Unlocked hook) + seeded random schedules",
+             text="Exhaustive TLC check of CCall.tla for n in 0..3 functions incl. nil entries, all outcome combinations and caller cancellation; the caller's step right after it released the lock is separately schedulable in the real code (verifhook.Unlocked park), so every completion timing relative to the caller's bookkeeping is replayed and judged by CCallP.", ref="§3 C17"),
+ "C18": dict(engine="conc", technique="TLA+ monitor ConcQueueP checked by TLC on ConcQueue.tla (Enqueue loop, worker pop-or-retire section, WaitIdle/WatchState loops) and on traces of the real queue under TLC edge-cover + seeded random schedules with harness-owned jobs",
+             text="Limit, exactly-once, FIFO start order for limit 1, (queued,running) pairs and WaitIdle's 'idle means done' as conditions of ConcQueueP evaluated by TLC on every recorded event of controlled executions (limits 0/1/2, batches, two producers) and as invariants of the X spec.", ref="§3 C18"),
 }
 NOT_YET = "not built yet in this session (work in progress; see DESIGN.md §6 build order)"
 
@@ -48,6 +52,8 @@ m = {
            "source_commits": hook_commits, "add_only": True},
  "engines": [
    {"name": "csync", "path": "tools/fam_csync.py", "serves_properties": ["C01", "C02"], "kind_free_text": "TLC model checking of specs/csync + controlled replay/trace validation (harness/drivers/csync.go)"},
+   {"name": "ccall", "path": "tools/fam_ccall.py", "serves_properties": ["C17"], "kind_free_text": "TLC model checking of specs/ccall + controlled replay/trace validation (harness/drivers/ccall.go)"},
+   {"name": "conc", "path": "tools/fam_conc.py", "serves_properties": ["C18"], "kind_free_text": "TLC model checking of specs/conc + controlled replay/trace validation (harness/drivers/conc.go)"},
    {"name": "race", "path": "tools/fam_race.py", "serves_properties": ["C13"], "kind_free_text": "free-running client programs under the Go race detector (harness/race_test.go)"},
    {"name": "routine", "path": "tools/fam_routine.py", "serves_properties": ["C04", "C05", "C14"], "kind_free_text": "TLC model checking of specs/routine + controlled replay/trace validation (harness/drivers/routine.go)"},
  ],
